@@ -414,6 +414,14 @@ def run_child(sb: Sandbox, job: dict, env: dict, timeout: float) -> dict:
     return res
 
 
+def prelude_version(rel: str, text: str) -> str:
+    """An earlier version of a module: other documentation texts, one more function, other defaults."""
+    out = text.replace("Summary TK", "Earlier summary TK").replace("About TK", "Earlier text about TK").replace("Outcome TK", "Earlier outcome TK")
+    out = out.replace("Module summary TK", "Earlier module summary TK").replace(" = 0)", " = 10)")
+    name = os.path.basename(rel)[:-3].strip("_") or "m"
+    return out + f'\n\ndef only_in_earlier_version_{name}(q: int = 3) -> int:\n    """Only the earlier version has this function."""\n    return q\n'
+
+
 def src_digest(sb: Sandbox) -> str:
     return tree_digest(snapshot_tree(sb.proj, with_content=False))
 
@@ -429,7 +437,13 @@ def run_step(sb: Sandbox, options: dict, step: dict, timeout: float = 180.0) -> 
     for rel in step.get("prepop_dirs") or []:
         os.makedirs(os.path.join(sb.out, rel), exist_ok=True)
     before = src_digest(sb)
-    job, env = build_job(sb, step.get("options") or options, step.get("sigma") or {}, step.get("faults") or [], step.get("job_extra"))
+    extra = dict(step.get("job_extra") or {})
+    if step.get("prelude_edit"):
+        # the same process first analyses the same paths while the files still hold OTHER contents (an edited version of
+        # the package); the child then restores the files, empties the output directory and does the run that is judged
+        extra["prelude_files"] = {os.path.join(sb.proj, rel): prelude_version(rel, text) for rel, text in sorted(sb.pkg["files"].items())
+                                  if rel.endswith(".py") and not rel.endswith("__init__.py")}
+    job, env = build_job(sb, step.get("options") or options, step.get("sigma") or {}, step.get("faults") or [], extra or None)
     res = run_child(sb, job, env, step.get("timeout", timeout))
     exc_ = res.get("exception") or {}
     if (res.get("outcome") == "failed" and str(exc_.get("type", "")).startswith("Unicode") and "surrogates not allowed" in str(exc_.get("message", ""))
